@@ -481,6 +481,8 @@ def main(argv):
     evid_path = os.path.join(EVID_DIR, prop + ".json")
     mod = importlib.import_module("props." + prop.lower())
     known = load_known()
+    import linecov
+    linecov.start()          # which library lines do this run's cases execute? (reported in the evidence)
 
     # 1-3 build, audit
     ba = build_and_audit(None)
@@ -649,6 +651,14 @@ def main(argv):
         "proof_problems": proof_problems,
         "exhaustive": False,
     }
+    try:
+        anchors = []
+        for ln in open(os.path.join(ROOT, "properties.jsonl")):
+            if ln.strip() and json.loads(ln)["id"] == prop:
+                anchors = json.loads(ln)["anchors"].get("files", [])
+        coverage["code_lines"] = linecov.report(anchors + getattr(mod, "EXTRA_FILES", []))
+    except Exception as e:
+        coverage["code_lines"] = {"available": False, "error": repr(e)}
     if tier == "thorough" and getattr(mod, "LEANCHECKER", True) and ba.get("ok") and not replay:
         try:
             pc = subprocess.run(["lake", "env", "leanchecker", "SpecVerif.Proofs." + prop], cwd=LEAN_DIR,
